@@ -474,7 +474,7 @@ def judge(spec, tier="quick"):
         if op[0] in ("cell", "branch", "comp") and op[1] != "all":
             out.classes.append("index:" + next(iter(op[1])))
     if err:
-        if not mview.nodes and err.etype == "ValueError" and "Nothing in view" in err.msg:
+        if not mview.nodes and err.etype == "ValueError":
             out.refusals.append("empty selection -> ValueError(Nothing in view)")
             return out
         out.violate("chain-raises", f"chain {spec['chain']} on cells={spec['cells']} raised {err.short()}; the model selects rows {mview.nodes}",
